@@ -87,6 +87,8 @@ fn main() {
   let verdict: Result<String, String> = match scenario {
     "statuslist_set" | "statuslist_get" | "statuslist_set_get" => statuslist::run(scenario, &cex),
     "statuslist_oneway" => statuslist::oneway(&cex),
+    "statuslist_codec" => statuslist::codec(&cex),
+    "statuslist_status" => statuslist::status_eval(&cex),
     "jws_binding" => jws::binding(&cex),
     "jws_policy" => jws::policy(&cex),
     "jws_charset" => jws::charset(&cex),
